@@ -119,7 +119,12 @@ def run(tier, seed, replay):
             for f in res.get("violations", []):
                 v.violation(f["key"], f.get("text", ""), f)
             nrace += res["behaviours"]
-    v.coverage["traces_validated_against_impl"] = nrep + nstress + nrace
+    # (4) the file view under shutdown: API operations against every phase of the debounced saver (shared with C20)
+    from props import c20
+    sg = c20.shutdown_model(ATOMIC_SAVE, False)
+    nshut, _, nprefix = c20.shutdown_replay(v, work, seed, big, vlib.Graph(sg), limit=150 if not big else 2000, repeat=2)
+    v.coverage["shutdown_prefixes_replayed"] = nprefix
+    v.coverage["traces_validated_against_impl"] = nrep + nstress + nrace + nshut
     v.coverage["sequential_behaviours_replayed"] = nrep
     v.coverage["replayed_steps"] = steps
     v.coverage["concurrent_rounds"] = nstress
